@@ -5,7 +5,8 @@ from itertools import permutations
 
 import anyio
 
-from .common import FAIL, OK, STUBS_COMMON, Harness, P, Tape, guard, pick, run
+from .common import FAIL, OK, STUBS_COMMON, CbBase, Harness, P, Tape, find_group, flatten, guard, pick, run
+import symsched
 from .ctree import RT, Env, NodeSpec, build_classes, descendants, shapes
 
 from asphalt.core import Context, start_component  # noqa: E402
@@ -24,15 +25,23 @@ def order_params(tier):
     ]
 
 
-@guard
-def order_fn(a, tier):
+EXTRAS = ["-", "the root also registers a teardown callback that raises a BaseException",
+          "the root also registers an async teardown callback during which the scope around the caller's context is cancelled",
+          "the root also starts a service task with teardown_action=None that ends once a later-registered callback tells it to"]
+
+
+def _order(a, tier, with_extra=False):
     shp = SHAPES_Q if tier == "quick" else SHAPES_T
     S = 3 if tier == "quick" else 4
+    if with_extra:
+        shp = SHAPES_X if tier == "quick" else SHAPES_Q
+        S = 2 if tier == "quick" else 3
     parents = shp[pick(a["shape"], len(shp))]
     n = len(parents)
     if n == 5:
         S = 2  # thorough: five components with a shorter arbitrary prefix
-    inherit = bool(pick(a["inherit"], 2))
+    inherit = bool(pick(a["inherit"], 2)) if not with_extra else False
+    extra = 1 + pick(a["extra"], 3) if with_extra else 0
     variants = [pick(a[f"v{i}"], 3) for i in range(n)]
     tape = Tape([a[f"s{i}"] for i in range(S)])
     env = Env()
@@ -51,20 +60,31 @@ def order_fn(a, tier):
             start = [pub, ("cp",), ("td", f"start{i}")]
         else:
             prep = [pub, ("td", f"prep{i}")]
+        if i == 0 and extra:
+            (start if start is not None else prep).append([None, ("tdbase", "X", CbBase), ("tdcancel", "X"), ("svcnone", "X")][extra])
         nodes.append(NodeSpec(i, parents[i], prep, start, inherit=inherit))
     classes = build_classes(env, nodes)
     out = {}
 
     async def main():
-        async with Context() as ctx:
-            out["ctx"] = ctx
-            out["ret"] = await start_component(classes[0], {}, timeout=1000)
-            env.ev("returned")
-            out["visible"] = {i: ctx.get_resources(RT[i]) for i in range(n)}
-            env.ev("leaving")
+        with anyio.CancelScope() as scope:
+            env.misc["scope"] = scope
+            async with Context() as ctx:
+                out["ctx"] = ctx
+                out["ret"] = await start_component(classes[0], {}, timeout=1000)
+                env.ev("returned")
+                out["visible"] = {i: ctx.get_resources(RT[i]) for i in range(n)}
+                env.ev("leaving")
+        env.ev("left")
 
     _, exc, k = run(main, chooser=tape)
-    summary = {"parents": parents, "variants": [VARIANTS[v] for v in variants], "methods_inherited": inherit, "schedule": tape.taken}
+    summary = {"parents": parents, "variants": [VARIANTS[v] for v in variants], "methods_inherited": inherit, "schedule": tape.taken, "extra": EXTRAS[extra]}
+    if extra == 1 and exc is not None and env.has("returned"):
+        if not find_group(exc, [env.misc.get(("exc", "X"))]):
+            return FAIL("order:teardown-outcome-with-a-BaseException-raising-callback", repr(exc), summary)
+        exc = None
+    if extra == 2 and exc is not None and env.has("returned") and all(isinstance(x, symsched.Cancelled) for x in flatten(exc)):
+        exc = None
     if exc is not None:
         return FAIL(f"order:start-failed:{type(exc).__name__}", repr(exc), summary)
     log = env.log
@@ -110,11 +130,44 @@ def order_fn(a, tier):
     reg = [e[1] for e in log if e[0] == "td_registered"]
     ran = [e[1] for e in log if e[0] == "td"]
     if ran != list(reversed(reg)) or any(log.index(("td", x)) < env.index("leaving") for x in ran):
-        return FAIL("order:teardown-ownership-or-order", f"registered={reg} ran={ran}", summary)
+        return FAIL(f"order:teardown-ownership-or-order:extra={extra}", f"registered={reg} ran={ran}", summary)
+    if extra == 3:
+        # the context is not left, and callbacks registered before the service task do not run, until the task has ended
+        end = env.index("svc_end", "X") if env.has("svc_end", "X") else None
+        after = ran[ran.index("X:stop") + 1:]
+        nxt = log.index(("td", after[0])) if after else env.index("left")
+        if end is None or not (env.index("td", "X:stop") < end < nxt) or (env.has("left") and end > env.index("left")):
+            return FAIL("order:service-task-with-teardown_action-None-not-awaited-at-teardown", f"log={log}", summary)
     if k.live_tasks():
         return FAIL("order:task-alive-after-exit", [t.name for t in k.live_tasks()], summary)
     return OK(summary, nontrivial=n >= 3)
 
+
+order_fn = guard(lambda a, tier: _order(a, tier))
+SHAPES_X = shapes(2) + shapes(3)
+
+
+def exit_params(tier):
+    shp = SHAPES_X if tier == "quick" else SHAPES_Q
+    n = 3 if tier == "quick" else 4
+    return [P("shape", 0, len(shp) - 1), P("extra", 0, 2)] + [P(f"v{i}", 0, 2) for i in range(n)] + [P(f"s{i}", 0, 5) for i in range(2 if tier == "quick" else 3)]
+
+
+EXIT = Harness(
+    prop="C05",
+    name="O-exit",
+    fn=guard(lambda a, tier: _order(a, tier, True)),
+    params=exit_params,
+    cube=lambda tier: 3,
+    title="everything the components registered is torn down when the caller's context is left - also when that teardown meets a fault",
+    bound_text=lambda tier: f"all rooted trees with 2..{3 if tier == 'quick' else 4} components x per component {VARIANTS} x the root additionally registers "
+    "{a teardown callback raising a BaseException, an async teardown callback during which the scope around the caller's context is cancelled, a service task "
+    f"with teardown_action=None that ends once a later callback tells it to}}; first {2 if tier == 'quick' else 3} scheduling decisions arbitrary",
+    oracle="O-order's oracle, and: every teardown callback registered by any component still runs, LIFO, after the fault; the exit raises the group holding the "
+    "callback's BaseException / only cancellation; the service task has ended before callbacks registered before it run and before the block is left",
+    outside="several faults in one teardown",
+    stubs=STUBS_COMMON,
+)
 
 ORDER = Harness(
     prop="C05",
@@ -216,7 +269,7 @@ WAIT = Harness(
     stubs=STUBS_COMMON,
 )
 
-HARNESSES = [ORDER, WAIT]
+HARNESSES = [ORDER, EXIT, WAIT]
 
 
 # ------------------------------------------------------------------------------ I-config
